@@ -539,13 +539,15 @@ def _run_future(workload, k):
     for o, _ in rec.ops:
         if o.kind == "deref":
             if o.result != want:
-                sig = f"{ID}/future-deref-wrong-outcome:want={want[0]}:{want[1]}:got={o.result[0]}:{o.result[1]}"
-                return R.verdict("violation", sig, dict(det, op=o.to_json()), faults=rec.faults)
+                sig = f"{ID}/future-deref-wrong-outcome"
+                return R.verdict("violation", sig, dict(det, op=o.to_json(), want=list(want), got=list(o.result)),
+                                 faults=rec.faults)
             got_final.append(o)
         elif o.kind == "tderef":
             if o.result != want and o.result != ("ok", "TIMEOUT"):
-                sig = f"{ID}/future-timed-deref-wrong-outcome:want={want[0]}:{want[1]}:got={o.result[0]}:{o.result[1]}"
-                return R.verdict("violation", sig, dict(det, op=o.to_json()), faults=rec.faults)
+                sig = f"{ID}/future-timed-deref-wrong-outcome"
+                return R.verdict("violation", sig, dict(det, op=o.to_json(), want=list(want), got=list(o.result)),
+                                 faults=rec.faults)
             if o.result == want:
                 got_final.append(o)
     # a timed deref invoked after some deref already produced the outcome cannot time out
@@ -553,13 +555,12 @@ def _run_future(workload, k):
         if o.kind == "tderef" and o.result == ("ok", "TIMEOUT"):
             for g in got_final:
                 if g.ret < o.inv:
-                    return R.verdict("violation", f"{ID}/future-timed-deref-timeout-after-outcome:want={want[0]}:{want[1]}",
-                                     dict(det, op=o.to_json()), faults=rec.faults)
+                    return R.verdict("violation", f"{ID}/future-timed-deref-timeout-after-outcome",
+                                     dict(det, op=o.to_json(), want=list(want)), faults=rec.faults)
     completes = [st["set_at"][1]] if st["set_at"] else []
     tr = _timed_rule(rec, completes, "future")
     if tr:
-        return R.verdict("violation", tr[0] + f":want={want[0]}:{want[1]}", dict(det, op=tr[1].to_json()),
-                         faults=rec.faults)
+        return R.verdict("violation", tr[0], dict(det, op=tr[1].to_json(), want=list(want)), faults=rec.faults)
     # realized?/done: true only once the body finished; false never after an outcome was returned
     fin = [e[1] for e in rec.body if e[0] in ("end", "throw")]
     for o, _ in rec.ops:
